@@ -6,4 +6,6 @@ export CARGO_NET_OFFLINE=true
 (cd tools/mirfacts && cargo build --offline 2>&1 | tail -2)
 (cd tools/srcfacts && cargo build --offline 2>&1 | tail -2)
 python3 -m rules.factsdb debug
+python3 -m rules.factsdb release
+VERIF_REPO=fixtures/positive python3 -m rules.factsdb debug
 echo setup-ok
